@@ -38,7 +38,9 @@ type c12Case struct {
 func genC12(t *rapid.T) c12Case {
 	o := webOpts{Store: rapid.SampledFrom([]string{"cookie", "file"}).Draw(t, "store"), VerifyIP: true}
 	o.HostSelection = rapid.SampledFrom([]string{"roundrobin", "roundrobin", "signed", "unsigned", "any"}).Draw(t, "mode")
-	switch rapid.IntRange(0, 2).Draw(t, "hostsKind") {
+	switch rapid.IntRange(0, 3).Draw(t, "hostsKind") {
+	case 3:
+		o.Hosts = []string{"rds01.corp.example:3389", "localhost:3390"} // names: an entry is the exact string, not a case-folded one
 	case 0:
 		o.Hosts = []string{"$A"}
 	case 1:
@@ -62,7 +64,7 @@ func genC12(t *rapid.T) c12Case {
 			r.User = rapid.SampledFrom([]string{"4", "7", "2@example.com", "9"}).Draw(t, "numUser")
 		}
 		r.SubDiffer = rapid.IntRange(0, 4).Draw(t, "subDiffers") == 0
-		r.Host = rapid.SampledFrom([]string{"absent", "listed:0", "listed:1", "unlisted", "qt-valid:0", "qt-valid:1", "qt-unlisted", "qt-forged", "qt-expired", "qt-wrong-issuer", "qt-no-issuer", "qt-wrong-key", "junk"}).Draw(t, "hostParam")
+		r.Host = rapid.SampledFrom([]string{"absent", "listed:0", "listed:1", "listed-othercase:0", "listed-othercase:1", "unlisted", "qt-valid:0", "qt-valid:1", "qt-unlisted", "qt-forged", "qt-expired", "qt-wrong-issuer", "qt-no-issuer", "qt-wrong-key", "junk"}).Draw(t, "hostParam")
 		r.Login.IP = rapid.SampledFrom(c04IPs).Draw(t, "loginIP")
 		r.From.IP = r.Login.IP
 		if rapid.IntRange(0, 2).Draw(t, "moved") == 0 {
@@ -135,6 +137,12 @@ func runC12(c c12Case) *Violation {
 			hasParam = false
 		case strings.HasPrefix(r.Host, "listed:"):
 			hostParam = listed(int(r.Host[7] - '0'))
+		case strings.HasPrefix(r.Host, "listed-othercase:"):
+			e := listed(int(r.Host[17] - '0'))
+			hostParam = strings.ToUpper(e[:len(e)/2]) + e[len(e)/2:]
+			if hostParam == e { // no letters in the first half (an address): not a different spelling, treat as listed
+				r.Host = "listed:" + r.Host[17:]
+			}
 		case r.Host == "unlisted":
 			hostParam = w.addr("D")
 		case strings.HasPrefix(r.Host, "qt-valid:"):
